@@ -287,6 +287,18 @@ func (m *multi) returnResults(msg proto.Message, err error) {
 
 	mr := msg.(*pb.MultiResponse)
 
+	// answered remembers which calls got something, so that a response
+	// that lacks an action doesn't leave its caller waiting forever.
+	answered := make([]bool, len(m.calls))
+	defer func() {
+		for j, c := range m.calls {
+			if c != nil && !answered[j] {
+				c.ResultChan() <- hrpc.RPCResult{Error: RetryableError{
+					errors.New("no result for this action in multi response")}}
+			}
+		}
+	}()
+
 	// Here we can assume that everything has been deserialized correctly.
 	// Dispatch results to appropriate calls.
 	for i, rar := range mr.GetRegionActionResult() {
@@ -301,6 +313,7 @@ func (m *multi) returnResults(msg proto.Message, err error) {
 					continue
 				}
 				if m.regionOf(j, c) == reg {
+					answered[j] = true
 					c.ResultChan() <- hrpc.RPCResult{Error: err}
 				}
 			}
@@ -313,6 +326,7 @@ func (m *multi) returnResults(msg proto.Message, err error) {
 			r := roe.GetResult()
 
 			c := m.get(i)
+			answered[i-1] = true
 
 			// TODO: don't bother if the call's context has already expired
 
